@@ -30,8 +30,8 @@ CHECKS = {
                 note='partial claim: SHA-256, base64, serde_json are ideal primitives; redact abstract (C04); native replays recompute with sha2 / base64 / an independent canonical-JSON writer at the size boundary',
                 ref='DESIGN.md §4 C05'),
     'C06': dict(engine='mirsym', technique=MIRSYM,
-                text='the three hash-order-sensitive kernels of resolve() executed from MIR under every iteration order of every HashMap / HashSet they walk (symbolic order index per iteration): lexicographical_topological_sort (every DAG over <= 3 nodes, symbolic power levels / timestamps; z3 decides the emitted order is the specified function of graph and keys), separate (1-2 state sets, 3 thorough; unconflicted / conflicted split as maps) and get_auth_chain_diff (1-3 chains; ids missing from some chain, as a set); hence independent of hasher seeds, threads and repetition; native replays call each 16 times with fresh RandomState seeds',
-                note='partial claim (DESIGN §4 C06): resolve() as a whole (composition of the kernels, iterative auth checks, mainline ordering), permutations of the state-set / auth-chain arguments and the creator cache are NOT decided; BinaryHeap / HashMap / HashSet are library models',
+                text='the three hash-order-sensitive kernels of resolve() executed from MIR under every iteration order of every HashMap / HashSet they walk (symbolic order index per iteration): lexicographical_topological_sort (every DAG over <= 3 nodes, symbolic power levels / timestamps; z3 decides the emitted order is the specified function of graph and keys), separate (1-2 state sets, 3 thorough; unconflicted / conflicted split as maps) and get_auth_chain_diff (1-3 chains; ids missing from some chain, as a set), plus get_power_level_for_sender on the symbolic world of C08: same level whether the shared creator cache is empty or was filled by an event visited earlier; hence independent of hasher seeds, threads and repetition; native replays call each 16 times with fresh RandomState seeds',
+                note='partial claim (DESIGN §4 C06): resolve() as a whole (composition of the kernels, iterative auth checks, mainline ordering), permutations of the state-set / auth-chain arguments are NOT decided; BinaryHeap / HashMap / HashSet are library models',
                 ref='DESIGN.md §4 C06'),
     'C07': dict(engine='mirsym', technique=MIRSYM,
                 text='the exposed topological sort clause only: lexicographical_topological_sort executed from MIR on every DAG over <= 3 nodes (4 thorough) with every identifier assignment, symbolic power level and timestamp per node, all hash iteration orders; z3 decides every node once, dependencies first, and among ready nodes greatest power level, then earliest timestamp, then smallest event id',
